@@ -3,8 +3,8 @@ from vlib.runner import Group, run_property
 
 SUM = ["deps.dev/util/semver.compare", "(deps.dev/util/semver.Set).matchVersion", "deps.dev/util/semver.canon$1",
        "(*deps.dev/util/semver.Constraint).MatchVersionPrerelease"]
-NCONS = {0: 29, 4: 29, 1: 26, 2: 5, 5: 19}  # C11 takes constraints only: the set-syntax templates at the end of the C09 lists are not used
-QUICK = {0: [1, 5, 7, 9, 11, 16, 17, 25, 26, 27], 4: [2, 6, 8, 10, 12, 15, 19, 25, 26, 28], 1: [0, 5, 9, 13, 14, 17, 23, 24, 25], 2: [0, 1, 2, 4], 5: [0, 1, 4, 5, 6, 8, 10, 15, 16, 17, 18]}
+NCONS = {0: 29, 4: 29, 1: 26, 2: 5, 5: 21}  # C11 takes constraints only: the set-syntax templates at the end of the C09 lists are not used
+QUICK = {0: [1, 5, 7, 9, 11, 16, 17, 25, 26, 27, 33, 34], 4: [2, 6, 8, 10, 12, 15, 19, 25, 26, 28, 33, 34], 1: [0, 5, 9, 13, 14, 17, 23, 24, 25, 30, 31], 2: [0, 1, 2, 4], 5: [0, 1, 4, 5, 6, 8, 10, 15, 16, 17, 18, 19, 20]}
 
 
 def run(tier):
@@ -15,7 +15,9 @@ def run(tier):
         ts = QUICK[sys] if tier == "quick" else list(range(NCONS[sys]))
         tvs = [0, 1, 2] if tier == "quick" else [0, 1, 2, 3]
         if sys == 5:
-            tvs = tvs + [4]
+            tvs = tvs + [4, 5, 6]
+        elif sys in (0, 4, 1):
+            tvs = tvs + [4, 5]
         for tc in ts:
             for tv in tvs:
                 jobs.append(dict(base, harness="VerifC11RoundTrip", params={"sys": sys, "tc": tc, "tv": tv}))
